@@ -244,20 +244,23 @@ func verifC40Sites(into map[string]bool) {
 
 var verifC40Hangs int
 
-// verifC40Blocked: one entry per leftover goroutine that is inside internal/core or internal/servers/hls:
-// its innermost (at most three) frames of those packages, innermost first, joined by "<"
-// (e.g. pathManager.AddReader<hls.muxer.runInner<hls.muxer.run); entries sorted, unique.
-func verifC40Blocked() string {
-	buf := make([]byte, 4<<20)
+// verifC40Sample: one entry per goroutine that is inside internal/core or internal/servers/hls and is
+// WAITING: its innermost (at most four) frames of those packages, innermost first, joined by "<", then
+// "@" and what it waits on (mutex / chan / wg / other), e.g.
+// pathManager.AddReader<hls.muxer.runInner<hls.muxer.run@chan.  moving = some goroutine inside those
+// packages is running or runnable (the system is slow, not stuck).
+func verifC40Sample() (set map[string]bool, moving bool) {
+	buf := make([]byte, 8<<20)
 	n := runtime.Stack(buf, true)
-	set := map[string]bool{}
+	set = map[string]bool{}
 	for _, g := range strings.Split(string(buf[:n]), "\n\n") {
-		if strings.Contains(g, "verifC40Blocked") {
+		if strings.Contains(g, "verifC40Sample") {
 			continue
 		}
+		lines := strings.Split(g, "\n")
 		var chain []string
-		for _, l := range strings.Split(g, "\n") {
-			if strings.HasPrefix(l, "\t") || strings.HasPrefix(l, "created by") || len(chain) == 3 {
+		for _, l := range lines[1:] {
+			if strings.HasPrefix(l, "\t") || strings.HasPrefix(l, "created by") || len(chain) == 4 {
 				continue
 			}
 			pfx, tag := "mediamtx/internal/core.", ""
@@ -278,19 +281,60 @@ func verifC40Blocked() string {
 				chain = append(chain, tag+f)
 			}
 		}
-		if len(chain) > 0 {
-			set[strings.Join(chain, "<")] = true
+		if len(chain) == 0 {
+			continue
+		}
+		hdr := lines[0]
+		st := "other"
+		switch {
+		case strings.Contains(hdr, "[running") || strings.Contains(hdr, "[runnable") || strings.Contains(hdr, "[syscall"):
+			moving = true
+			continue
+		case strings.Contains(hdr, "Mutex") || strings.Contains(hdr, "[semacquire"):
+			st = "mutex"
+		case strings.Contains(hdr, "WaitGroup"):
+			st = "wg"
+		case strings.Contains(hdr, "[chan ") || strings.Contains(hdr, "[select"):
+			st = "chan"
+		}
+		set[strings.Join(chain, "<")+"@"+st] = true
+	}
+	return set, moving
+}
+
+// verifC40Stuck decides whether the run is stuck: three samples 300 ms apart, no operation completed in
+// the meantime, nothing inside core/hls running or runnable in any of them.  The report is the goroutines
+// that are waiting, at the same place, in ALL three samples.
+func verifC40Stuck(ops *atomic.Int64) (string, bool) {
+	before := ops.Load()
+	var persist map[string]bool
+	for k := 0; k < 3; k++ {
+		if k > 0 {
+			time.Sleep(300 * time.Millisecond)
+		}
+		set, moving := verifC40Sample()
+		if moving {
+			return "", false
+		}
+		if persist == nil {
+			persist = set
+		} else {
+			for e := range persist {
+				if !set[e] {
+					delete(persist, e)
+				}
+			}
 		}
 	}
+	if ops.Load() != before || len(persist) == 0 {
+		return "", false
+	}
 	var l []string
-	for f := range set {
-		l = append(l, f)
+	for e := range persist {
+		l = append(l, e)
 	}
 	sort.Strings(l)
-	if len(l) == 0 {
-		return "?"
-	}
-	return strings.Join(l, ",")
+	return strings.Join(l, ","), true
 }
 
 func verifC40Exec(op string) string {
@@ -298,8 +342,8 @@ func verifC40Exec(op string) string {
 	if f[0] != "stress" && f[0] != "hls" {
 		return "bad-op"
 	}
-	if verifC40Hangs >= 3 {
-		// the process already carries the leaked goroutines of three hung runs: stop searching
+	if verifC40Hangs >= 2 {
+		// the process already carries the leaked goroutines of two hung runs: stop searching
 		return "skipped"
 	}
 	if f[0] == "hls" {
@@ -383,13 +427,16 @@ func verifC40Watch(finished chan struct{}, ops *atomic.Int64, watchdog time.Dura
 			if cur := ops.Load(); cur != last {
 				last, lastChange = cur, time.Now()
 			}
-			// the watchdog fires when no operation completed for `watchdog` AND goroutines are parked
-			// inside internal/core (a slow machine alone is not a hang); hard cap 90 s
+			// the watchdog fires when no operation completed for `watchdog` AND the run is stuck (see
+			// verifC40Stuck: a slow or starved machine is not a hang); hard cap 150 s
 			if time.Since(lastChange) > watchdog {
-				b := verifC40Blocked()
-				if b != "?" || time.Since(start) > 90*time.Second {
+				if b, stuck := verifC40Stuck(ops); stuck {
 					verifC40Hangs++
 					return "hang " + b
+				}
+				if time.Since(start) > 150*time.Second {
+					verifC40Hangs++
+					return "hang ?"
 				}
 				lastChange = time.Now()
 			}
@@ -403,7 +450,7 @@ func verifC40Watch(finished chan struct{}, ops *atomic.Int64, watchdog time.Dura
 // in a goroutine of the server cannot be recovered, and it must not take the whole search down.  The
 // answer of a crashed child is `crash <innermost mediamtx frames of the panicking goroutine>`.
 func verifC40Child(op string) string {
-	cmd := exec.Command(os.Args[0], "-test.run", "^TestVerifC40Child$", "-test.count=1", "-test.timeout", "200s")
+	cmd := exec.Command(os.Args[0], "-test.run", "^TestVerifC40Child$", "-test.count=1", "-test.timeout", "240s")
 	cmd.Env = append(os.Environ(), "VERIF_C40_CHILD_OP="+op, "GOTRACEBACK=single")
 	out, _ := cmd.CombinedOutput()
 	txt := string(out)
